@@ -195,21 +195,33 @@ func saveState(lastMessages map[string]interface{}) {
 	mainname := viper.ConfigFileUsed()
 	tmpname := strings.Replace(mainname, ".yaml", ".tmp.yaml", 1)
 	bakname := mainname + ".bak"
+	if vcrash("saveState.beforeWriteTmp") {
+		return
+	}
 	err := viper.WriteConfigAs(tmpname)
 	if err != nil {
 		log.Println("Could not store config file ", tmpname, ": ", err)
 		return
 	}
 
+	if vcrash("saveState.afterWriteTmp") {
+		return
+	}
 	// Move old config file to backup and new file to standard config name.
 	err = os.Remove(bakname)
 	if err != nil && !os.IsNotExist(err) {
 		log.Println("Could not remove backup file ", bakname, " even though it exists: ", err)
 		return
 	}
+	if vcrash("saveState.afterRemoveBak") {
+		return
+	}
 	err = os.Rename(mainname, bakname)
 	if err != nil && !os.IsNotExist(err) {
 		log.Println("Could not save backup file: ", err)
+		return
+	}
+	if vcrash("saveState.afterMoveMain") {
 		return
 	}
 	err = os.Rename(tmpname, mainname)
